@@ -245,6 +245,18 @@ func mergeSources(p *pkgFiles, body *ast.BlockStmt) []string {
 							out = append(out, types.ExprString(x.X))
 						}
 					}
+					// `for _, layer := range [...]map[string]any{a, b, c} { for k, v := range layer { dst[k] = v } }`: a, b, c in that order
+					if cl, isLit := x.X.(*ast.CompositeLit); isLit && x.Value != nil {
+						if inner, ok := x.Body.List[0].(*ast.RangeStmt); ok && types.ExprString(inner.X) == types.ExprString(x.Value) && len(inner.Body.List) == 1 {
+							if as, ok := inner.Body.List[0].(*ast.AssignStmt); ok && len(as.Lhs) == 1 {
+								if _, isIdx := as.Lhs[0].(*ast.IndexExpr); isIdx {
+									for _, el := range cl.Elts {
+										out = append(out, types.ExprString(el))
+									}
+								}
+							}
+						}
+					}
 				}
 			case *ast.ExprStmt:
 				if ce, ok := x.X.(*ast.CallExpr); ok {
